@@ -69,13 +69,17 @@ Ltac split1 H :=
       | _ => destruct x eqn:?
       end
   end.
-Ltac step_split H := repeat (split1 H; cbn in H; try discriminate H).
+Ltac step_split H :=
+  repeat (split1 H; cbn in H; rewrite ?andb_false_r, ?andb_true_r in H; cbn in H; try discriminate H).
+
+Ltac rw_eqs := repeat match goal with E : ?f ?s = ?v |- context [?f ?s] => rewrite E end.
 
 Ltac unfold_steps H :=
   unfold step, step_walker, step_walker_err, step_worker, step_worker_openerr, step_worker_readerr,
     step_req, step_req_ctx, step_send_ret, step_recvloop, step_recvloop_closed, step_fill,
     step_fill_ctx, step_diff, step_diff_ctx, step_diff_cberr, step_diffouter, step_writer,
-    step_writer_ctx, step_writer_cberr, step_recv_ret, send_s, send_r, lock_s, lock_r in H.
+    step_writer_ctx, step_writer_cberr, step_recv_ret, send_s, send_r, lock_s, lock_r,
+    sender_quiet, sw_is_done, rq_is_done, fl_is_done, dl_is_done, do_is_done, rl_is_done, is_none, torn_down in H.
 
 (* ---------- who is inside Stream.SendMsg ---------- *)
 Definition wk_in_send (w : wkpc) : bool :=
@@ -134,7 +138,7 @@ Proof.
   assert (HsO1: s_mu st <> Some GDiffOuter) by (intro X; apply (Hs GDiffOuter) in X; discriminate).
   assert (HsO2: forall j, s_mu st <> Some (GWriter j)) by (intros j X; apply (Hs (GWriter j)) in X; discriminate).
   cbn [in_send_s] in HsW, HsQ. clear Hs.
-  destruct l; unfold_steps H; step_split H; inv_some; subst; intro g; destruct g; cbn; rw_nth.
+  destruct l; unfold_steps H; step_split H; inv_some; subst; intro g; destruct g; cbn; rw_nth; try rw_eqs.
   all: repeat match goal with
        | H : true = true <-> ?P |- _ => assert P by (apply H; reflexivity); clear H
        | H : nth_error (wks ?s) ?j = Some ?w |- _ =>
@@ -166,7 +170,7 @@ Proof.
   cbn [in_send_r] in HsW. clear Hs.
   destruct l; unfold_steps H; step_split H; inv_some; subst;
     repeat match goal with w : writer |- _ => destruct w; cbn in * end; subst;
-    intro g; destruct g; cbn; unfold setwr; cbn; rw_nth.
+    intro g; destruct g; cbn; unfold setwr; cbn; rw_nth; try rw_eqs.
   all: repeat match goal with
        | H : true = true <-> ?P |- _ => assert P by (apply H; reflexivity); clear H
        | H : nth_error (wrs ?s) ?j = Some ?w |- _ =>
@@ -213,3 +217,89 @@ Proof.
   - apply Hs in A, B. congruence.
   - apply Hr in A, B. congruence.
 Qed.
+
+(* ---------- flag invariants: FIN handshake, return values ---------- *)
+Definition is_fin (pk : packet) : bool := match pk with PFin => true | _ => false end.
+Definition has_fin (l : list packet) : bool := existsb is_fin l.
+
+Lemma forallb_nth : forall A (f : A -> bool) l j x,
+  forallb f l = true -> nth_error l j = Some x -> f x = true.
+Proof.
+  intros. rewrite forallb_forall in H. apply H. eapply nth_error_In; eauto.
+Qed.
+
+Definition inv1 (st : state) : Prop :=
+  (send_ret st <> None -> sw_pc st = SW_Done /\ rq_pc st = RQ_Done /\ forallb wk_done (wks st) = true) /\
+  (send_ret st = Some true -> s_err st = false) /\
+  (match rq_pc st with
+   | RQ_LockFin | RQ_SendFin => g_got_fin_s st = true
+   | RQ_Close true | RQ_Ret true => g_got_fin_s st = true /\ g_fin_sr st = true
+   | RQ_Done => s_err st = true \/ (g_got_fin_s st = true /\ g_fin_sr st = true)
+   | _ => True end) /\
+  (g_fin_sr st = true -> g_got_fin_s st = true) /\
+  (g_got_fin_s st = true -> g_fin_rs st = true) /\
+  (has_fin (buf_rs st) = true -> g_fin_rs st = true) /\
+  (has_fin (buf_sr st) = true -> g_fin_sr st = true) /\
+  (g_got_fin_r st = true -> g_fin_sr st = true) /\
+  (match rl_pc st with
+   | RL_Drain => g_got_fin_r st = true
+   | RL_Done => r_err st = true \/ g_got_fin_r st = true
+   | _ => True end) /\
+  (recv_ret st <> None -> do_pc st = DO_Done /\ rl_pc st = RL_Done) /\
+  (recv_ret st = Some true -> r_err st = false).
+
+Ltac quiet_contra :=
+  match goal with
+  | Q : sender_quiet ?s = true |- _ =>
+      unfold sender_quiet, sw_is_done, rq_is_done in Q;
+      repeat match goal with E : _ = _ |- _ => rewrite E in Q end; cbn in Q;
+      try discriminate Q;
+      apply andb_prop in Q; destruct Q as [_ Q];
+      match goal with E : nth_error (wks s) _ = Some _ |- _ =>
+        pose proof (forallb_nth _ _ _ _ _ Q E) as Q'; discriminate Q' end
+  end.
+
+Ltac no_send_ret I1 :=
+  try match type of I1 with send_ret ?s <> None -> _ =>
+    assert (send_ret s = None) by (
+      let b := fresh "b" in
+      destruct (send_ret s) as [b|] eqn:SR; [exfalso | reflexivity];
+      let Q := fresh "Q" in
+      assert (Q: Some b <> None) by discriminate; apply I1 in Q;
+      let Q1 := fresh in let Q2 := fresh in let Q3 := fresh in
+      destruct Q as (Q1 & Q2 & Q3);
+      first [ discriminate Q1 | discriminate Q2 | congruence
+            | match goal with E : nth_error (wks s) _ = Some _ |- _ =>
+                let Q' := fresh in pose proof (forallb_nth _ _ _ _ _ Q3 E) as Q'; discriminate Q' end ])
+  end.
+Ltac no_recv_ret I10 :=
+  try match type of I10 with recv_ret ?s <> None -> _ =>
+    assert (recv_ret s = None) by (
+      let b := fresh "b" in
+      destruct (recv_ret s) as [b|] eqn:SR; [exfalso | reflexivity];
+      let Q := fresh "Q" in
+      assert (Q: Some b <> None) by discriminate; apply I10 in Q;
+      let Q1 := fresh in let Q2 := fresh in
+      destruct Q as (Q1 & Q2);
+      first [ discriminate Q1 | discriminate Q2 | congruence ])
+  end.
+
+Lemma inv1_step : forall p st l st', inv1 st -> step p st l = Some st' -> inv1 st'.
+Proof.
+  intros p st l st' I H. unfold inv1 in I.
+  destruct I as (I1 & I2 & I3 & I4 & I5 & I6 & I7 & I8 & I9 & I10 & I11).
+  destruct l; unfold_steps H; step_split H; inv_some; subst; unfold inv1;
+  repeat match goal with w : writer |- _ => destruct w; cbn in * end; subst; cbn;
+  repeat match goal with E : _ = _ |- _ => rewrite E in * end; cbn in *;
+  unfold has_fin in *; rewrite ?existsb_app in *; cbn in *; rewrite ?orb_false_r, ?orb_true_r in *;
+  no_send_ret I1; no_recv_ret I10;
+  repeat match goal with E : _ = None |- _ => rewrite E in * end.
+  all: try (intuition (try discriminate; try congruence; auto); fail).
+  all: try (destruct (rq_pc st) as [| | | | | [] | [] |]; intuition (try discriminate; try congruence; auto); fail).
+  all: try (destruct (rl_pc st); intuition (try discriminate; try congruence; auto); fail).
+  all: destruct (s_err st) eqn:?, (r_err st) eqn:?; cbn in *; try (intuition (try discriminate; try congruence; auto); fail).
+  all: try (destruct (rl_pc st); intuition (try discriminate; try congruence; auto); fail).
+Qed.
+
+Lemma inv1_init : forall p, inv1 (init p).
+Proof. intro p. unfold inv1; cbn. intuition (try discriminate; try congruence). Qed.
